@@ -17,6 +17,8 @@ use std::time::Duration;
 pub struct SchedRun {
     /// the schedule as executed (skipped entries removed, drain appended)
     pub executed: Vec<usize>,
+    /// the action applied to each executed request (Proceed unless a fault was injected)
+    pub actions: Vec<Action>,
     /// per executed step: G | Pc+ | Pc- | Pu+ | Pu- | Po+ | Po- | other verbs
     pub kinds: Vec<String>,
     /// object path of each executed request
@@ -31,19 +33,76 @@ pub struct SchedRun {
     pub finished: Vec<(usize, usize, usize)>,
 }
 
+/// G | Pc+ | Pc- | Pu+ | Pu- without faults.  With an injected fault: `x` = the
+/// request failed without taking effect (Gx, Pcx, Pux), `!` = a PUT that was
+/// applied although the client got an error, `~` = fail-after on a PUT whose
+/// precondition did not hold (nothing applied).
 pub fn kind_of(e: &LogEntry) -> String {
     match e.info.verb {
-        "GET" => "G".to_string(),
+        "GET" => match e.action {
+            Action::Proceed => "G".to_string(),
+            _ => "Gx".to_string(),
+        },
         "PUT" => {
             let m = match e.info.mode.as_str() {
                 "create" => "Pc",
                 "update" => "Pu",
                 _ => "Po",
             };
-            format!("{}{}", m, if e.ok { "+" } else { "-" })
+            let suffix = match e.action {
+                Action::Proceed => if e.ok { "+" } else { "-" },
+                Action::FailBefore => "x",
+                Action::FailAfter => if e.ok { "!" } else { "~" },
+            };
+            format!("{}{}", m, suffix)
         }
         v => v.to_string(),
     }
+}
+
+/// "<c>", "<c>b" (fail before effect), "<c>a" (fail after effect)
+pub fn step_token(c: usize, a: Action) -> String {
+    match a {
+        Action::Proceed => c.to_string(),
+        Action::FailBefore => format!("{}b", c),
+        Action::FailAfter => format!("{}a", c),
+    }
+}
+
+pub fn parse_step_token(t: &str) -> (usize, Action) {
+    let t = t.trim();
+    if let Some(x) = t.strip_suffix('b') {
+        (x.parse().unwrap_or(0), Action::FailBefore)
+    } else if let Some(x) = t.strip_suffix('a') {
+        (x.parse().unwrap_or(0), Action::FailAfter)
+    } else {
+        (t.parse().unwrap_or(0), Action::Proceed)
+    }
+}
+
+impl SchedRun {
+    /// for every executed step: index (in its client's program) of the operation it belongs to
+    pub fn op_of_step(&self) -> Vec<usize> {
+        let mut out = Vec::with_capacity(self.executed.len());
+        for (s, &c) in self.executed.iter().enumerate() {
+            let i = self.finished.iter().filter(|(fs, fc, _)| *fc == c && *fs < s).count();
+            out.push(i);
+        }
+        out
+    }
+}
+
+/// Delta debugging with a budget of `max_runs` evaluations of `fails` (a
+/// candidate evaluated after the budget is spent counts as "does not fail").
+pub fn ddmin_capped<T: Clone>(input: &[T], max_runs: usize, fails: &mut dyn FnMut(&[T]) -> bool) -> Vec<T> {
+    let mut runs = 0usize;
+    csv_common::ddmin(input, &mut |cand: &[T]| {
+        if runs >= max_runs {
+            return false;
+        }
+        runs += 1;
+        fails(cand)
+    })
 }
 
 /// Must run inside a `tokio::task::LocalSet` on a current-thread runtime with
@@ -54,6 +113,20 @@ pub async fn drive(
     tasks: Vec<LocalBoxFuture<'static, ()>>,
     nops: &[usize],
     schedule: &[usize],
+    max_steps: usize,
+) -> SchedRun {
+    let s: Vec<(usize, Action)> = schedule.iter().map(|c| (*c, Action::Proceed)).collect();
+    drive_faults(hub, tasks, nops, &s, max_steps).await
+}
+
+/// Like `drive`, but every schedule entry carries the action applied to that
+/// request: Proceed, FailBefore (error, store untouched) or FailAfter (the
+/// request is performed, the client still gets an error).  The drain uses Proceed.
+pub async fn drive_faults(
+    hub: &Arc<Hub>,
+    tasks: Vec<LocalBoxFuture<'static, ()>>,
+    nops: &[usize],
+    schedule: &[(usize, Action)],
     max_steps: usize,
 ) -> SchedRun {
     let n = tasks.len();
@@ -67,6 +140,7 @@ pub async fn drive(
     let mut done = vec![0usize; n];
     let mut results: Vec<Vec<String>> = vec![Vec::new(); n];
     let mut executed = Vec::new();
+    let mut actions = Vec::new();
     let mut stuck = None;
     let mut finished = Vec::new();
     let mut pos = 0usize;
@@ -77,25 +151,28 @@ pub async fn drive(
             break;
         }
         // next client: from the schedule, then round-robin drain
-        let c = if pos < schedule.len() {
-            let c = schedule[pos];
+        let (c, act) = if pos < schedule.len() {
+            let (c, a) = schedule[pos];
             pos += 1;
             if c >= n || done[c] >= nops[c] {
                 continue;
             }
-            c
+            (c, a)
         } else {
             match (0..n).map(|i| (rr + i) % n).find(|&k| done[k] < nops[k]) {
                 Some(k) => {
                     rr = k + 1;
-                    k
+                    (k, Action::Proceed)
                 }
                 None => break,
             }
         };
-        let stepped = tokio::time::timeout(Duration::from_secs(36_000), ctl.step(c, Action::Proceed)).await;
+        let stepped = tokio::time::timeout(Duration::from_secs(36_000), ctl.step(c, act)).await;
         match stepped {
-            Ok(Some(_)) => executed.push(c),
+            Ok(Some(_)) => {
+                executed.push(c);
+                actions.push(act);
+            }
             Ok(None) => {
                 // a note without a request: collect it below
             }
@@ -126,7 +203,7 @@ pub async fn drive(
     let log = hub.take_log();
     let kinds = log.iter().map(kind_of).collect();
     let paths = log.iter().map(|e| e.info.path.clone()).collect();
-    SchedRun { executed, kinds, paths, results, stuck, log, finished }
+    SchedRun { executed, actions, kinds, paths, results, stuck, log, finished }
 }
 
 /// All sequences over 0..n of the given length (for small exhaustive sweeps).
